@@ -24,6 +24,12 @@ def child_stub(ty, node_ctor, method='execute', path='ast::'):
 
 def exec_unit(uid, title, repo, opaque_ast, node_enum, props=('C02', 'C03'), aux='pub struct Aux { pub u: u8 }\n'):
     u = Unit(uid, title, repo, list(props), safety_props=['C01'] + list(props))
+    # C16 ("exit n at any depth ... the EXIT trap sees the terminating status"): that an exit request raised inside a compound command
+    # leaves it unchanged is exactly what the C02 clauses of these executors say, so they count for C16 where the unit is listed for it
+    if 'C02' in props:
+        u.prop_alias = {'C02': ['C16']}
+        if 'C16' not in u.props:
+            u.props.append('C16')
     u.raw(HEADER)
     interp = u.source('brush-core/src/interp.rs')
     # projection check: the fields the stub ExecutionParameters keeps must exist in the real struct
